@@ -912,3 +912,17 @@ pub fn layout_uniform(toks: &[Tok], filler: &str) -> Rendered {
         }
     })
 }
+
+/// One statement per line: a newline after every `;`, `{` and `}` (keeps lines short, so the
+/// library's per-line column counting stays cheap on packed files).
+pub fn layout_lines(toks: &[Tok]) -> Rendered {
+    layout(toks, &|i| {
+        if i == 0 || i >= toks.len() {
+            None
+        } else if matches!(toks[i - 1].kind, Kind::Semi | Kind::LBrace | Kind::RBrace) {
+            Some("\n".into())
+        } else {
+            None
+        }
+    })
+}
